@@ -108,3 +108,22 @@ Theorem C02_passthrough_only_for_attached_routes :
     name_serves h (lower sni) = true /\ pr_backend r = Some u /\
     forall x, In x (port_names ls rs port) -> name_serves (fst x) (lower sni) = true -> name_rank (fst x) <= name_rank h.
 Proof. exact passthrough_only_for_attached_routes. Qed.
+
+(* ---- the rewrite directives of a location (model of updateLocation's part for URLRewrite / RequestRedirect, C02/RewriteLoc.v, compared
+   with the real function on every run), run through the rewrite phase of ngx/EvalFwd.v - the evaluator every forwarded-path comparison
+   uses: in an external location and in an internal one (entered with whatever path), for rewrite and redirect, for every path modifier,
+   prefix and request path that reaches the rule, the path that leaves the location is the one the specification prescribes
+   (k8s/SpecFwd.modified_path). The theorem fails for the tree before the repair of D50 (redirect, internal, prefix). *)
+From NGF Require Import k8s.SpecFwd ngx.EvalFwd C02.RewriteLoc C02.RewriteLocProofs.
+
+Theorem C02_location_path_is_the_prescribed_path :
+  forall kind internal pm P q entry,
+  (forall s, pm = Some (ReplaceFull s) -> strip_args s = s /\ seqb s "$request_uri" = false) ->
+  reaches (Str.chars_of P) (Str.chars_of q) ->
+  (internal = false -> entry = q) ->
+  location_path kind internal pm P q entry = Some (modified_path pm (PathPrefix P) q).
+Proof. exact location_path_is_the_prescribed_path. Qed.
+
+(* the evaluator reads a prefix rewrite directive back as the rewrite it was written for, whatever the prefix contains *)
+Theorem C02_rewrite_directive_round_trip : forall r, parse_prefix_rewrite (regex_text r) (repl_text r) = Some r.
+Proof. exact parse_print. Qed.
